@@ -110,8 +110,11 @@ def doc_block_pairs(in_doc, out_doc, single=False):
     for k, a, b in cons:
         if not a or not b:
             continue
-        sa, sb = AJ.code_sections(a), AJ.code_sections(b)
-        for (pa, ca), (pb, cb) in zip(sa, sb):
+        sa, sb = AJ.code_sections(a), dict(AJ.code_sections(b))
+        for pa, ca in sa:
+            if pa not in sb:
+                raise ValueError("code section %s%s is missing in the output" % (k, pa))
+            pb, cb = pa, sb[pa]
             ba, bb = AJ.cut_blocks(ca), AJ.cut_blocks(cb)
             if len(ba) != len(bb):
                 raise ValueError("block count differs in %s%s: %d vs %d" % (k, pa, len(ba), len(bb)))
